@@ -2671,7 +2671,8 @@ def validated(fn, src_dir, out_dir, lean_root):
     if lean_root is None:
         return text, holes
     import tempfile
-    cache_path = os.path.join(tempfile.gettempdir(), "rs2lean_validated.json")
+    cache_path = os.path.join(os.path.dirname(os.path.dirname(os.path.abspath(__file__))), "work", "rs2lean_validated.json")
+    os.makedirs(os.path.dirname(cache_path), exist_ok=True)
     try:
         cache = json.load(open(cache_path))
     except (OSError, ValueError):
